@@ -55,7 +55,7 @@ let parse_wire (b : int array) : (int * int list option) option =
 
 let vk = function
   | V_tcp_cookie -> "tcp_cookie" | V_cookie_missing -> "cookie_missing" | V_malformed_req -> "malformed_req"
-  | V_client_unstable -> "client_unstable" | V_echo -> "echo_not_latest" | V_supported_accepts -> "supported_accepts"
+  | V_source_shared -> "source_shared" | V_client_unstable -> "client_unstable" | V_echo -> "echo_not_latest" | V_supported_accepts -> "supported_accepts"
   | V_mismatch_accepted -> "mismatch_accepted" | V_valid_dropped -> "valid_dropped" | V_badcookie -> "badcookie"
   | V_badcookie_bound -> "badcookie_bound" | V_unsup_dropped -> "unsup_dropped"
 
